@@ -51,9 +51,30 @@ func (b *Bundle) ExpectedSchemas(pkgName string) map[string][]string {
 							}
 							top.object(n+"Message", "", m.Fields, []*Field{metaField("upsert", "UpsertMetadata")}, nil)
 						}
+					case "event":
+						for _, m := range t.Messages {
+							n := m.Name
+							if n == "" {
+								n = t.Name
+							}
+							top.object(n+"Message", "", m.Fields, nil, nil)
+						}
 					case "reqres":
-						top.object(t.Name+"RequestMessage", "", t.Request.Fields, []*Field{metaField("request", "RequestMetadata")}, nil)
-						top.object(t.Name+"ReplyMessage", "", t.Reply.Fields, []*Field{metaField("request", "RequestMetadata")}, nil)
+						meta := []*Field{metaField("request", "RequestMetadata")}
+						for _, m := range append([]*TopicMessage{t.Request}, t.MoreRequests...) {
+							n := m.Name
+							if n == "" {
+								n = t.Name + "Request"
+							}
+							top.object(n+"Message", "", m.Fields, meta, nil)
+						}
+						for _, m := range append([]*TopicMessage{t.Reply}, t.MoreReplies...) {
+							n := m.Name
+							if n == "" {
+								n = t.Name + "Reply"
+							}
+							top.object(n+"Message", "", m.Fields, meta, nil)
+						}
 					}
 				}
 			}
